@@ -28,3 +28,12 @@ Fixpoint first_diff {A} (eqb : A -> A -> bool) (i : nat) (l m : list A) : option
   | x :: l', y :: m' => if eqb x y then first_diff eqb (S i) l' m' else Some i
   | _, _ => Some i
   end.
+
+(* approximate comparison for float-derived angles: |x - y| <= eps *)
+Definition qclose (eps x y : Q) : bool := Qle_bool (Qabs.Qabs (x - y)) eps.
+Definition pgate_close (eps : Q) (g h : pgate Q) : bool :=
+  match g, h with
+  | PRot r x q, PRot r' x' q' => rot_eqb r r' && qclose eps x x' && Nat.eqb q q'
+  | PEnt e c t, PEnt e' c' t' => ent_eqb e e' && Nat.eqb c c' && Nat.eqb t t'
+  | _, _ => false
+  end.
